@@ -149,7 +149,7 @@ def summarize(rec, spec, cap, scripts, extra):
          "schedule": rec["schedule"], "req": rec["request"], "labels": rec["labels"], "expect": rec["expect"],
          "rets": rec["rets"], "errors": rec["errors"], "deadlock": rec["deadlock"], "all_returned": rec["all_returned"],
          "dups": rec["dups"], "lock_balanced": rec["lock_balanced"], "strong": rec["strong"], "weak": rec["weak"],
-         "cap_now": rec["cap"], "steps": rec["steps"]}
+         "cap_now": rec["cap"], "steps": rec["steps"], "unmapped": rec["unmapped"]}
     d.update(extra)
     return d
 
@@ -160,7 +160,7 @@ def threaded_runs(ctx):
         return ctx._c18_threads
     runs = []
     ctx._c18_shape = []
-    max_runs = ctx.budget(60, 4000)
+    max_runs = ctx.budget(60, 2500)
     with S.pinned_tz(S.LOCAL_TZ):
         for ci, (spec, cap, scripts, bound) in enumerate(FIXED_CASES):
             b = bound if ctx.tier == "thorough" or ctx.escalated else min(bound, 2)
@@ -411,7 +411,9 @@ def correspondence(ctx):
     truns = threaded_runs(ctx)
     for msg in ctx._c18_shape[:3]:
         ctx.mismatch("source-shape", msg, "statement table could not be built", "Model/Factory.lean statement list")
-    truns = [r for r in truns if not r.get("fine")]
+    for msg in sorted(set(m for r in truns for m in r["unmapped"]))[:4]:
+        ctx.mismatch("source-shape", msg, "statement table could not be built", "Model/Factory.lean statement list")
+    truns = [r for r in truns if not r.get("fine") and not r["unmapped"]]
     resp = ctx.driver([r["req"] for r in truns])
     for r, m in zip(truns, resp):
         rec = {"labels": r["labels"], "expect": r["expect"], "rets": r["rets"], "all_returned": r["all_returned"],
